@@ -136,9 +136,11 @@ func (self Loader) LoadMany(items []LoadOneItem) (out []Function) {
 // and returns runnable function pointer
 // WARN: this API is experimental, use it carefully
 func Load(text []byte, funcs []Func, modulename string, filenames []string) (out []Function) {
-	ids := make([]string, len(funcs))
+	// remember the inputs by entry offset: names need not be unique
+	// (distinct types may print identically), entry offsets are
+	ids := make([]uint32, len(funcs))
 	for i, f := range funcs {
-		ids[i] = f.Name
+		ids[i] = f.EntryOff
 	}
 	// generate module data and allocate memory address
 	mod := makeModuledata(modulename, filenames, &funcs, text)
@@ -150,9 +152,9 @@ func Load(text []byte, funcs []Func, modulename string, filenames []string) (out
 	//
 	// encapsulate function address
 	out = make([]Function, len(funcs))
-	for i, s := range ids {
+	for i, off := range ids {
 		for _, f := range funcs {
-			if f.Name == s {
+			if f.EntryOff == off {
 				m := uintptr(mod.text + uintptr(f.EntryOff))
 				out[i] = Function(&m)
 			}
